@@ -3,7 +3,7 @@
    (statements only; proofs in MemStreamProofs.v, CrashProofs.v and StateReadProofs.v). *)
 From Coq Require Import NArith List Bool Lia.
 From CV Require Import C11.MemStreamModel C11.MemStreamProofs C11.CrashModel C11.CrashProofs
-  C11.StateReadModel C11.StateReadProofs.
+  C11.StateReadModel C11.StateReadProofs C11.BinReadModel C11.BinReadProofs.
 Import ListNotations.
 Open Scope N_scope.
 
@@ -88,6 +88,16 @@ Print Assumptions C11_vector_alloc_bounded.
 Theorem C11_string_read_never_throws : forall (s : mstream) (n : N), fst (read_string s) <> RThrow n.
 Proof. exact read_string_never_throws. Qed.
 Print Assumptions C11_string_read_never_throws.
+
+(* Whatever the 8-byte length word of a string record says -- also 2^64-1, or any value in the window
+   [2^64 - read_pos_, 2^64) for which read_pos_ + length wraps around -- a string is delivered only when its
+   8 + length bytes lie between the read position and the end of the data (has_remaining subtracts, it
+   does not add). *)
+Theorem C11_string_read_bounded : forall (s : mstream) (v : list byte) (s' : mstream),
+  rinv s -> read_string s = (RBytes v, s') ->
+  8 + blen v <= ms_len s - ms_pos s /\ ms_pos s' = ms_pos s + 8 + blen v /\ good s' = true.
+Proof. exact read_string_delivers. Qed.
+Print Assumptions C11_string_read_bounded.
 
 (* Reading any proper prefix of a valid stream with the types it was written with stops with an
    error (the stream is not good), after delivering only a prefix of the original values. *)
@@ -199,6 +209,62 @@ Theorem C11_cut_in_block_is_error_concrete : forall (colvars : list N) (biases :
 Proof. exact cut_in_block_is_error_c. Qed.
 Print Assumptions C11_cut_in_block_is_error_concrete.
 
+(* ===================== (d) the binary state readers above the stream ===================== *)
+
+(* The framing of a record of an unformatted state: a list of fields (a string that must be a given
+   keyword, any string, an object of sz bytes), each read through the stream model.  A record cut
+   anywhere before its end is refused, wherever it lies in the data. *)
+Theorem C11_binary_record_truncated : forall (fs : list field) (its : list item) (b1 p q : list byte) (mx : N) (o : bool),
+  fields_match fs its -> enc_all its = p ++ q -> q <> [] -> blen (b1 ++ p) < W64 ->
+  read_fields (rst (b1 ++ p) mx false false false (blen b1) o) fs = None.
+Proof. exact read_fields_trunc. Qed.
+Print Assumptions C11_binary_record_truncated.
+
+(* colvar::read_state(memory_stream &): "colvar" <data>, cut anywhere: failbit + cvm::error *)
+Theorem C11_binary_colvar_truncated_is_error : forall (cv_ok : list byte -> bool) (data b1 p q : list byte) (mx : N) (o : bool),
+  item_ok (IStr data) -> enc_all [IStr kw_colvar; IStr data] = p ++ q -> q <> [] -> blen (b1 ++ p) < W64 ->
+  cv_read cv_ok (rst (b1 ++ p) mx false false false (blen b1) o) = None.
+Proof. exact cv_cut. Qed.
+Print Assumptions C11_binary_colvar_truncated_is_error.
+
+(* colvarbias::read_state_template_<memory_stream> on an object with a list of hills (metadynamics): the
+   object is <keyword> "configuration" <conf> hill*; the data ends somewhere inside it (p is a proper prefix
+   of the object, nothing follows).  Unless p stops exactly between two hills (or before the first, or
+   after the last), the read is an error: raise_error_rewind for the header, hill_stream_error for a hill --
+   including a cut inside the 12-byte "hill" keyword, where the string read fails and unread_bytes(is,
+   start_pos), measured from where the record starts, is what tells the cut from the end of the list. *)
+Theorem C11_binary_bias_truncated_is_error :
+  forall (matches : bbias -> list byte -> option bool) (params_ok : bbias -> list byte -> bool)
+         (b : bbias) (kwd conf : list byte) (hs : list (list item)) (b1 p q : list byte) (mx : N) (o : bool),
+  bb_kind b = 1%nat -> item_ok (IStr kwd) -> item_ok (IStr conf) ->
+  bytes_eqb kwd (bb_kw b) || bytes_eqb kwd (bb_type b) = true ->
+  matches b conf = Some true -> params_ok b conf = true ->
+  Forall (hill_ok (bb_nvar b)) hs ->
+  enc_header kwd conf ++ enc_hills hs = p ++ q -> q <> [] -> blen (b1 ++ p) < W64 ->
+  (forall k, p <> enc_header kwd conf ++ enc_hills (firstn k hs)) ->
+  bias_read matches params_ok b (rst (b1 ++ p) mx false false false (blen b1) o) = BErr \/
+  exists s, bias_read matches params_ok b (rst (b1 ++ p) mx false false false (blen b1) o) = BOk s true.
+Proof. exact bias_cut. Qed.
+Print Assumptions C11_binary_bias_truncated_is_error.
+
+(* The full statement of the property text for binary states, "every proper prefix of a valid state is
+   reported as an error", is FALSE of the format (known_findings.txt, load.binary-prefix-accepted:at-hill-boundary):
+   there is neither a hill count nor an end marker, so data that stop exactly between two hills of the
+   last object are a well-formed state with fewer hills.  The exceptions of the theorem above are exactly
+   these, and they are accepted: *)
+Theorem C11_binary_hill_boundary_accepted :
+  forall (matches : bbias -> list byte -> option bool) (params_ok : bbias -> list byte -> bool)
+         (b : bbias) (kwd conf : list byte) (hs : list (list item)) (k : nat) (b1 : list byte) (mx : N) (o : bool),
+  bb_kind b = 1%nat -> item_ok (IStr kwd) -> item_ok (IStr conf) ->
+  bytes_eqb kwd (bb_kw b) || bytes_eqb kwd (bb_type b) = true ->
+  matches b conf = Some true -> params_ok b conf = true ->
+  Forall (hill_ok (bb_nvar b)) hs -> (k <= length hs)%nat ->
+  blen (b1 ++ enc_header kwd conf ++ enc_hills (firstn k hs)) < W64 ->
+  exists s, bias_read matches params_ok b
+              (rst (b1 ++ enc_header kwd conf ++ enc_hills (firstn k hs)) mx false false false (blen b1) o) = BOk s false.
+Proof. exact bias_hill_boundary. Qed.
+Print Assumptions C11_binary_hill_boundary_accepted.
+
 (* non-vacuity *)
 Example C11_example_roundtrip :
   let l := [IObj [1;2;3;4]; IStr [97;98;99]; IVec 8 [[1;0;0;0;0;0;0;0]; [2;0;0;0;0;0;0;0]]; IVec 3 [[1;2;3]; [4;5;6]]] in
@@ -289,3 +355,26 @@ Example C11_example_error_tolerant :
   rs = [Done true; Done false; Done true] /\ completed rs = true /\
   m_fs m = mkFS (Some (mkF 3 100 100)) (Some (mkF 1 100 100)) None.
 Proof. vm_compute. repeat split; reflexivity. Qed.
+
+(* (d) is not vacuous: a metadynamics object with two hills of one variable; cut 8 bytes into the second
+   hill record (right after the length word of its "hill" keyword): error; cut between the hills: accepted;
+   a length word of 2^64-1 after a first string (read position 11): not delivered *)
+Definition ex_hill (it : N) : list item :=
+  [IStr kw_hill; IStr kw_step; IObj (le64 it); IStr kw_weight; IObj (le64 1); IStr kw_centers; IObj (le64 2);
+   IStr kw_widths; IObj (le64 3)].
+Definition ex_bb : bbias := mkBB [109;101;116;97] [109;101;116;97] 1 1.
+Definition ex_obj : list byte := enc_header [109;101;116;97] [110;32;109] ++ enc_hills [ex_hill 1; ex_hill 2].
+Example C11_example_binary_cut :
+  Forall (hill_ok 1) [ex_hill 1; ex_hill 2] /\
+  (let p := firstn (N.to_nat (blen (enc_header [109;101;116;97] [110;32;109] ++ enc_all (ex_hill 1)) + 8)) ex_obj in
+   exists s, bias_read (fun _ _ => Some true) (fun _ _ => true) ex_bb (input_stream p) = BOk s true) /\
+  (let p := enc_header [109;101;116;97] [110;32;109] ++ enc_all (ex_hill 1) in
+   exists s, bias_read (fun _ _ => Some true) (fun _ _ => true) ex_bb (input_stream p) = BOk s false) /\
+  fst (read_string (snd (read_string (input_stream (le64 3 ++ [1;2;3] ++ le64 18446744073709551615 ++ [4;5]))))) = RNone.
+Proof.
+  split; [|split; [|split]].
+  - repeat constructor; cbn [field_ok shape_of shape_of_field item_ok]; try reflexivity; try (vm_compute; reflexivity).
+  - vm_compute. eexists. reflexivity.
+  - vm_compute. eexists. reflexivity.
+  - vm_compute. reflexivity.
+Qed.
